@@ -13,7 +13,7 @@ import grpc
 from hypothesis import strategies as st
 
 from vf import lab
-from vf.core import Prop, Outcome, HarnessError
+from vf.core import Prop, Outcome, HarnessError, fd
 
 from deep.grpc import GRPCService
 from deep.poll import LongPoll
@@ -107,6 +107,7 @@ class C12(Prop):
             st.tuples(st.just('register'), st.integers(0, len(POOL) - 1)),
             st.tuples(st.just('unregister'), st.integers(0, 5)),
             st.tuples(st.just('run'), st.integers(0, 1)), st.tuples(st.just('run'), st.integers(0, 1)),
+            st.tuples(st.just('run_nested'), st.integers(0, 1), tps),
             st.tuples(st.just('settle'), st.lists(st.integers(0, 1), max_size=6)))
         plain = st.lists(op, min_size=1, max_size=30 if tier == 'thorough' else 16)
         # class forcing: two updates whose apply tasks are run second-first
@@ -116,7 +117,7 @@ class C12(Prop):
                                                         st.tuples(st.just('register'), st.integers(0, 2))), max_size=2),
                            st.lists(op, max_size=6))
         sim = st.one_of(plain, plain, forced).map(lambda ops: {'mode': 'sim', 'ops': [list(o) for o in ops]})
-        timer = st.fixed_dictionaries({'mode': st.just('timer'),
+        timer = fd({'mode': st.just('timer'),
                                        'script': st.lists(st.sampled_from(['update', 'nochange', 'rpc', 'exc',
                                                                            'malformed']), min_size=2, max_size=6)})
         return st.one_of(sim, sim, sim, sim, sim, sim, sim, sim, timer)
@@ -163,37 +164,71 @@ class C12(Prop):
             except BaseException as e:      # noqa
                 return e
 
-        for step, op in enumerate(recipe['ops']):
+        def do_update(kind, op):
+            nonlocal n_upd, latest, latest_hash, err_since_update, updates_seen
+            n_upd += 1
+            h = 'H%d' % n_upd
+            members = [('u%d_%d' % (n_upd, i), loc, None) for i, loc in enumerate(op[1])]
+            if kind == 'partly_bad':
+                pos = op[3] % (len(members) + 1)
+                members.insert(pos, ('bad%d' % n_upd, 0, op[2]))
+                out.cls('partly_bad')
+            w.script = [PollResponse(ts_nanos=n_upd, current_hash=h, response_type=ResponseType.UPDATE,
+                                     response=[proto_tp(m, loc, bad) for m, loc, bad in members])]
+            e = poll()
+            req = w.requests[-1]
+            if (req.current_hash or None) not in known_hashes and req.current_hash not in known_hashes:
+                out.violate('poll reported a hash the service never sent', {'hash': req.current_hash})
+            if e is None:
+                latest = [m for m, loc, bad in members if bad is None]
+                latest_hash = h
+                known_hashes.add(h)
+                if updates_seen and err_since_update:
+                    out.cls('error_between_updates')
+                updates_seen += 1
+                err_since_update = False
+            else:
+                if kind == 'update':
+                    out.violate('poll raised on a well-formed UPDATE: %s' % lab.exc_bucket(e))
+                # partly bad: rejected as a whole is accepted - then nothing may have changed
+                if w.cfg.tracepoints.current_hash != latest_hash:
+                    out.violate('rejected UPDATE changed the reported hash without installing its configuration',
+                                {'hash': w.cfg.tracepoints.current_hash, 'model': latest_hash})
+
+        ops = list(recipe['ops'])
+        step = -1
+        while ops:
+            op = ops.pop(0)
+            step += 1
             kind = op[0]
+            if kind == 'run_nested':
+                # the next poll response arrives while an apply task is between "handed the configuration to the
+                # handler" and "finished" - the listener call is the yield point (it is a call-out of the task)
+                if not pending():
+                    continue
+                out.cls('poll_during_apply_task')
+                orig_new_config = w.handler.new_config
+                fired = []
+
+                def nested_new_config(cfg_, _op=op):
+                    orig_new_config(cfg_)
+                    if not fired:
+                        fired.append(1)
+                        w.handler.new_config = orig_new_config
+                        ops.insert(0, ['update_now', _op[2]])
+                        run_inline_update()
+                w.handler.new_config = nested_new_config
+
+                def run_inline_update():
+                    nxt = ops.pop(0)
+                    do_update('update', [None, nxt[1]])
+                run(op[1])
+                w.handler.new_config = orig_new_config
+                kind = 'noop'
             if kind in ('update', 'partly_bad'):
-                n_upd += 1
-                h = 'H%d' % n_upd
-                members = [('u%d_%d' % (n_upd, i), loc, None) for i, loc in enumerate(op[1])]
-                if kind == 'partly_bad':
-                    pos = op[3] % (len(members) + 1)
-                    members.insert(pos, ('bad%d' % n_upd, 0, op[2]))
-                    out.cls('partly_bad')
-                w.script = [PollResponse(ts_nanos=n_upd, current_hash=h, response_type=ResponseType.UPDATE,
-                                         response=[proto_tp(m, loc, bad) for m, loc, bad in members])]
-                e = poll()
-                req = w.requests[-1]
-                if (req.current_hash or None) not in known_hashes and req.current_hash not in known_hashes:
-                    out.violate('poll reported a hash the service never sent', {'hash': req.current_hash})
-                if e is None:
-                    latest = [m for m, loc, bad in members if bad is None]
-                    latest_hash = h
-                    known_hashes.add(h)
-                    if updates_seen and err_since_update:
-                        out.cls('error_between_updates')
-                    updates_seen += 1
-                    err_since_update = False
-                else:
-                    if kind == 'update':
-                        out.violate('poll raised on a well-formed UPDATE: %s' % lab.exc_bucket(e))
-                    # partly bad: rejected as a whole is accepted - then nothing may have changed
-                    if w.cfg.tracepoints.current_hash != latest_hash:
-                        out.violate('rejected UPDATE changed the reported hash without installing its configuration',
-                                    {'hash': w.cfg.tracepoints.current_hash, 'model': latest_hash})
+                do_update(kind, op)
+            if False:
+                pass
             elif kind == 'nochange':
                 before = (w.cfg.tracepoints.current_hash, len(pending()))
                 w.script = [PollResponse(ts_nanos=99, current_hash=latest_hash or '',
